@@ -20,12 +20,13 @@ func init() {
 			"(R1) codec agreement: from the binary writer(s) and the binary reader the tuples (field, byte range, byte order) are extracted and must be equal and cover both fields of Entity at their widths; the JSON writer and reader both go through encoding/json on an array of the same type with the fields at the same positions; " +
 			"(R2) every constant-bound slice of the input in the binary reader is dominated by a length test whose failing branch returns a non-nil error, and the tested length is the largest offset used; " +
 			"(R3) dump/load agreement: every field of the dump is written by the dump function and read by the load function; the dump copies pool memory instead of aliasing it; the load function assigns every field of the entity pool (including the derived pointer, C01/R6) from fresh copies, re-creates the index and target-flag slices with the dumped length, and its emptiness guard and lock test precede all effects. " +
-			"Not decided: the round-trip identity for every free-list shape; internals of encoding/json.",
+			"(R4) the codec methods of Entity and the helpers they call use no package-level variable of the package that holds mutable memory (no shared encode buffer). Not decided: the round-trip identity for every free-list shape; internals of encoding/json.",
 		TrustedBase: []string{"go/types, go/cfg", "semantics of encoding/binary ByteOrder methods and encoding/json on fixed arrays"},
 		Rules: []Rule{
 			{ID: "C17/R1", Run: c17r1, Min: 1},
 			{ID: "C17/R2", Run: c17r2, Min: 1},
 			{ID: "C17/R3", Run: c17r3, Min: 1},
+			{ID: "C17/R4", Run: c17r4, Min: 4},
 		},
 	})
 }
@@ -83,6 +84,35 @@ func structLitElems(m *core.Model, cl *ast.CompositeLit) []litElem {
 		}
 	}
 	return out
+}
+
+// fieldStoredFrom returns the key of the one field of the receiver value that f stores the local v into (possibly
+// converted), or "".
+func fieldStoredFrom(m *core.Model, f *core.Func, v *types.Var) string {
+	keys := map[string]bool{}
+	core.InspectNoLits(f.Body, func(n ast.Node) bool {
+		as, ok := n.(*ast.AssignStmt)
+		if !ok || len(as.Lhs) != len(as.Rhs) {
+			return true
+		}
+		for i, l := range as.Lhs {
+			k := fieldKeyOf(m, l)
+			if _, isSel := ast.Unparen(l).(*ast.SelectorExpr); !isSel || k == "" {
+				continue
+			}
+			if id := identOf(m.StripConv(as.Rhs[i])); id != nil && m.Info.ObjectOf(id) == types.Object(v) {
+				keys[k] = true
+			}
+		}
+		return true
+	})
+	if len(keys) != 1 {
+		return ""
+	}
+	for k := range keys {
+		return k
+	}
+	return ""
 }
 
 // binaryOps extracts the codec tuples of f.
@@ -175,6 +205,14 @@ func binaryOps(m *core.Model, f *core.Func) ([]codecTuple, string) {
 					lf := ""
 					if i < len(y.Lhs) {
 						lf = fieldKeyOf(m, y.Lhs[i])
+						// the value is first taken into a local and stored from there (id := binary..Uint32(..); e.id = entityID(id))
+						if lf == "" {
+							if id := identOf(y.Lhs[i]); id != nil {
+								if v, ok := m.Info.ObjectOf(id).(*types.Var); ok && !v.IsField() {
+									lf = fieldStoredFrom(m, f, v)
+								}
+							}
+						}
 					}
 					// a whole-value store (*e = Entity{id: .., gen: ..}, possibly through a constructor helper that
 					// merely names the literal): each element is the store of that field
@@ -796,4 +834,56 @@ func derivesFromDumpLen(m *core.Model, f *core.Func, e ast.Expr, depth int) bool
 		return !found
 	})
 	return found
+}
+
+// C17/R4: the codecs of a handle keep no state between calls.
+//
+// What MarshalBinary / MarshalJSON / AppendBinary return must stay what it was when a second handle is encoded, and
+// decoding must not depend on earlier calls: the codec methods of Entity (the interface method names are fixed by the
+// encoding packages), together with the unexported helpers they call, neither read nor write a package-level variable
+// of the package that holds mutable memory (a slice, array, map, pointer or struct variable). A shared buffer handed
+// out as the result of one encoding is overwritten by the next.
+func c17r4(c *core.Ctx) {
+	m := c.M
+	n := 0
+	for _, f := range m.Funcs {
+		if f.Recv != "Entity" || f.Obj == nil {
+			continue
+		}
+		switch f.Obj.Name() {
+		case "MarshalBinary", "AppendBinary", "UnmarshalBinary", "MarshalJSON", "UnmarshalJSON", "MarshalText", "UnmarshalText", "AppendText":
+		default:
+			continue
+		}
+		n++
+		bad := ""
+		for _, g := range withCallees(m, f, 3) {
+			if g.Body == nil {
+				continue
+			}
+			ast.Inspect(g.Body, func(x ast.Node) bool {
+				id, ok := x.(*ast.Ident)
+				if !ok || bad != "" {
+					return true
+				}
+				v, ok := m.Info.Uses[id].(*types.Var)
+				if !ok || v.IsField() || v.Pkg() == nil || v.Pkg() != m.Prog.Ecs.Types || v.Parent() != v.Pkg().Scope() {
+					return true
+				}
+				switch v.Type().Underlying().(type) {
+				case *types.Slice, *types.Array, *types.Map, *types.Pointer, *types.Struct:
+					bad = fmt.Sprintf("%s uses the package-level variable %s (%s) at %s", g.Name, v.Name(), v.Type().String(), c.At(id.Pos()))
+				}
+				return true
+			})
+		}
+		if bad == "" {
+			c.OK("C17/R4", f.Name, c.At(f.Pos()), "uses no package-level mutable memory; every result is built from the receiver, the arguments and fresh allocations")
+		} else {
+			c.Violation("C17/R4", f.Name, c.At(f.Pos()), fmt.Sprintf("%s: %s; an encoding handed out earlier (or a decoding in progress) shares that memory with the next call, so a stored handle would silently turn into another one", f.Name, bad))
+		}
+	}
+	if n == 0 {
+		c.Undecide("C17/R4", "codec methods", "no marshalling method of Entity found")
+	}
 }
